@@ -64,7 +64,8 @@ ArrDiff(g, a) ==
   ELSE IF ~(\A k \in 1..Len(a.vals) : a.mask[k] \/ g.vals[k] = a.vals[k]) THEN "values"
   ELSE ""
 
-NoFV(attrs) == {attrs[i] : i \in {j \in 1..Len(attrs) : attrs[j].k # "fill_value"}}
+\* (_FillValue is the same encoding on a disk-backed variable)
+NoFV(attrs) == {attrs[i] : i \in {j \in 1..Len(attrs) : attrs[j].k \notin {"fill_value", "_FillValue"}}}
 \* A float result is logged as the nearest fraction with denominator <= 100;
 \* that identifies the exact value only if its denominator is <= 100 and, for
 \* float32 data, its magnitude is small enough for the rounding error to stay
